@@ -31,6 +31,7 @@ const (
 	bForged      = "forged"       // an unsigned forgery at position k
 	bForgedFirst = "forged-first" // an unsigned forgery as the first header
 	bWrongChain  = "wrong-chain"  // first header from another chain id
+	bNoChain     = "no-chain"     // first header with an empty chain id
 	bInvalid     = "invalid"      // first header fails Validate
 	bStatus0     = "status-0"     // unknown status code 0 with a valid body
 	bStatus7     = "status-7"     // unknown status code 7
@@ -138,6 +139,10 @@ func respond(chain *vh.Chain, b behaviour, r simnet.Request) simnet.Reply {
 	case bWrongChain:
 		hs := append([]*vh.Header(nil), honest...)
 		hs[0] = chain.Variant(vh.VWrongChain, hs[0].Height(), 1)
+		rep.Responses = okFrames(hs)
+	case bNoChain:
+		hs := append([]*vh.Header(nil), honest...)
+		hs[0] = chain.Variant(vh.VNoChain, hs[0].Height(), 1)
 		rep.Responses = okFrames(hs)
 	case bInvalid:
 		hs := append([]*vh.Header(nil), honest...)
